@@ -291,7 +291,9 @@ func decodeBatch(data []byte, fn func(i int, index batchIndex) error) error {
 		// Key.
 		x, n := binary.Uvarint(data[o:])
 		o += n
-		if n <= 0 || o+int(x) > len(data) {
+		// Compare unsigned: a length of 2^63 or more is negative as an int,
+		// and o+int(x) may overflow.
+		if n <= 0 || x > uint64(len(data)-o) {
 			return newErrBatchCorrupted("bad record: invalid key length")
 		}
 		index.keyPos = o
@@ -302,7 +304,7 @@ func decodeBatch(data []byte, fn func(i int, index batchIndex) error) error {
 		if index.keyType == keyTypeVal {
 			x, n = binary.Uvarint(data[o:])
 			o += n
-			if n <= 0 || o+int(x) > len(data) {
+			if n <= 0 || x > uint64(len(data)-o) {
 				return newErrBatchCorrupted("bad record: invalid value length")
 			}
 			index.valuePos = o
